@@ -35,6 +35,10 @@ pub mod io_uring_backend;
 #[cfg(feature = "io-uring")]
 pub mod uring;
 
+/// Verification facade; exists only when built with `--cfg rzmq_verif`.
+#[cfg(rzmq_verif)]
+pub mod verif;
+
 // Re-export core types for user convenience, making them accessible directly
 // from the crate root (e.g., `rzmq::ZmqError`, `rzmq::Socket`).
 pub use context::Context;
